@@ -179,6 +179,82 @@ Theorem C05_new_root_is_directory_disk :
 Proof. exact disk_confirm_dir. Qed.
 Print Assumptions C05_new_root_is_directory_disk.
 
+(* ---- the chain of roots is bounded; loading cannot recurse forever ---- *)
+
+(* [chain_ok dirs l]: the roots of the loader chain satisfy the no-cycle invariant and are all members of
+   [dirs]; [dirs] is any finite list containing every directory ConfirmDir can return.  It holds of the
+   loader krusty.Run starts with and is preserved by every successful New on a local reference, each of
+   which makes the chain one longer. *)
+Theorem C05_chain_start :
+  forall (is_repo : string -> bool) (git_new : loader -> string -> res loader) (fs : fsops) (dirs : list string),
+    (forall q d, confirm_dir fs q = Ok d -> In d dirs) ->
+    forall r target l,
+      is_repo target = false -> new_loader is_repo git_new fs r target = Ok l ->
+      chain_ok dirs l /\ List.length (l_stack l) = 1.
+Proof. exact new_loader_chain_ok. Qed.
+Print Assumptions C05_chain_start.
+
+Theorem C05_chain_step :
+  forall (is_repo : string -> bool) (git_new : loader -> string -> res loader) (fs : fsops) (dirs : list string),
+    (forall q d, confirm_dir fs q = Ok d -> In d dirs) ->
+    forall l p l',
+      is_repo p = false -> chain_ok dirs l -> new_root is_repo git_new fs l p = Ok l' ->
+      chain_ok dirs l' /\ List.length (l_stack l') = S (List.length (l_stack l)).
+Proof. exact new_root_chain_ok. Qed.
+Print Assumptions C05_chain_step.
+
+(* the roots of a chain are pairwise distinct members of [dirs]: the chain is no longer than [dirs] *)
+Theorem C05_stack_bounded :
+  forall (dirs : list string) (l : loader), chain_ok dirs l -> List.length (l_stack l) <= List.length dirs.
+Proof. exact stack_bounded. Qed.
+Print Assumptions C05_stack_bounded.
+
+(* instances: [m_dirs m] / [d_dirs root] enumerate the directories of the (finite) tree *)
+Theorem C05_stack_bounded_mem :
+  forall m l, wf_mnode m = true -> chain_ok (mem_dir_names m) l ->
+    List.length (l_stack l) <= List.length (m_dirs m).
+Proof. exact mem_stack_bounded. Qed.
+Print Assumptions C05_stack_bounded_mem.
+
+Theorem C05_stack_bounded_disk :
+  forall root l, chain_ok (disk_dir_names root) l -> List.length (l_stack l) <= List.length (d_dirs root).
+Proof. exact disk_stack_bounded. Qed.
+Print Assumptions C05_stack_bounded_disk.
+
+(* The recursion of a build over its bases ([visit_roots]: New for every directory reference of every
+   kustomization visited, [bases] arbitrary) never runs out of fuel when fuel + chain length exceeds the
+   number of directories … *)
+Theorem C05_load_recursion_fuel :
+  forall (is_repo : string -> bool) (git_new : loader -> string -> res loader) (fs : fsops) (dirs : list string),
+    (forall q d, confirm_dir fs q = Ok d -> In d dirs) ->
+    (forall q, f_cleaned_abs fs q <> Diverge) ->
+    forall bases : string -> list string,
+      (forall r p, In p (bases r) -> is_repo p = false) ->
+      forall fuel l,
+        chain_ok dirs l -> fuel + List.length (l_stack l) > List.length dirs ->
+        visit_roots is_repo git_new fuel fs bases l <> Diverge.
+Proof. exact visit_roots_terminates. Qed.
+Print Assumptions C05_load_recursion_fuel.
+
+(* … in particular fuel = number of directories + 1 suffices from the loader a build starts with *)
+Theorem C05_load_recursion_terminates_mem :
+  forall (is_repo : string -> bool) (git_new : loader -> string -> res loader) m r target l bases,
+    wf_mnode m = true -> is_repo target = false ->
+    (forall rt p, In p (bases rt) -> is_repo p = false) ->
+    new_loader is_repo git_new (mem_ops m) r target = Ok l ->
+    visit_roots is_repo git_new (S (List.length (m_dirs m))) (mem_ops m) bases l <> Diverge.
+Proof. exact mem_visit_roots_terminates. Qed.
+Print Assumptions C05_load_recursion_terminates_mem.
+
+Theorem C05_load_recursion_terminates_disk :
+  forall (is_repo : string -> bool) (git_new : loader -> string -> res loader) root cwd r target l bases,
+    is_dir_node root -> wf_dnode root = true -> is_repo target = false ->
+    (forall rt p, In p (bases rt) -> is_repo p = false) ->
+    new_loader is_repo git_new (disk_ops root cwd) r target = Ok l ->
+    visit_roots is_repo git_new (S (List.length (d_dirs root))) (disk_ops root cwd) bases l <> Diverge.
+Proof. exact disk_visit_roots_terminates. Qed.
+Print Assumptions C05_load_recursion_terminates_disk.
+
 (* ---- obligations over the generated table of raw file-system reads (Gen/RawReads.v) ---- *)
 From KV Require Import Gen.RawReads Fs.RawReadAllow Fs.RawReadsProofs.
 
